@@ -161,7 +161,7 @@ static void run()
     if (MODE == 1) {
         // manual pruning removes exactly the eligible files
         for (int f = 0; f < NF; f++) VASSERT(pruned[f] == (h >= 0 && eligible[f]), "manual pruning removes exactly the files wholly inside the allowed range");
-        VWITNESS(n == NF - 1 && NF > 1, "all prunable files pruned");
+        if (NF > 1) VWITNESS(n == NF - 1, "all prunable files pruned");
         VWITNESS(n == 0 && h > 1000, "nothing pruned");
     } else {
         bool hist = false;
@@ -185,12 +185,12 @@ static void run()
         if (gate) VASSERT(left + base_buffer < target || !any_left, "on return usage (plus allocation buffer) is back under the target or no eligible file remains");
         if (gate && over) VASSERT(left + buffer < target || !any_left, "when pruning was triggered it continues down to the (IBD-enlarged) buffer or until no eligible file remains");
         VASSERT((unsigned __int128)bm.CalculateCurrentUsage() == left, "usage after pruning = usage before minus the pruned files (no wrap)");
-        VWITNESS(n == NF - 1 && NF > 1, "all prunable files pruned");
-        VWITNESS(gate && n == 0 && any_left, "below target: eligible file kept");
-        VWITNESS(gate && n > 0 && any_left, "stopped early with an eligible file left");
+        if (NF > 1) VWITNESS(n == NF - 1, "all prunable files pruned");
+        if (NF > 1) VWITNESS(gate && n == 0 && any_left, "below target: eligible file kept");
+        if (NF > 2) VWITNESS(gate && n > 0 && any_left, "stopped early with an eligible file left");
         VWITNESS(gate && n == 0 && over, "over target but nothing eligible");
-        VWITNESS(gate && n > 0 && left + base_buffer < target && !(left + buffer < target) && !any_left, "IBD buffer makes pruning go below the plain target");
-        VWITNESS(hist && n > 0, "historical chainstate halves the target");
+        if (NF > 1) VWITNESS(gate && n > 0 && left + base_buffer < target && !(left + buffer < target) && !any_left, "IBD buffer makes pruning go below the plain target");
+        if (NF > 1) VWITNESS(hist && n > 0, "historical chainstate halves the target");
     }
     VREACH("end");
 }
